@@ -883,7 +883,10 @@ class Sampler():
                         enumerate(blobs[0])]
                 else:
                     self.blobs_dtype = np.array([blobs[0][0]]).dtype
-            blobs = np.squeeze(np.array(blobs, dtype=self.blobs_dtype))
+            # Remove singleton dimensions except the first one, i.e., the batch.
+            blobs = np.array(blobs, dtype=self.blobs_dtype)
+            blobs = np.squeeze(blobs, axis=tuple(
+                np.flatnonzero(np.array(blobs.shape[1:]) == 1) + 1))
         else:
             log_l = np.array(result)
             blobs = None
